@@ -251,3 +251,55 @@ func TestVerifC14KFMultiMeasurementDeleteHang(t *testing.T) {
 	st.Sample(k.log)
 	k.bed.Close()
 }
+
+// series written and compacted into an index file, one of them dropped (tombstone stays in the
+// log file, id deleted from the series file), series file compacted, store reopened  ->  the
+// tombstone entry is skipped at replay because the id has no key any more, and the dropped id is
+// back in the shard's series id set / SeriesN.
+func TestVerifC14KFSeriesTombstoneLostOnReplay(t *testing.T) {
+	st := verifkit.For("C14", "TestVerifC14KFSeriesTombstoneLostOnReplay", "directed: insert in an index file, tombstone in the log file, series-file compaction, reopen")
+	defer st.Flush()
+	k := vC14NewKF(t, st, vDualCfg{NShards: 1, LogSize: 200, Partitions: 1, CacheSize: 100})
+	k.write(1, "m0,a=x", "m0,a=y", "m0,a=z", "m0,b=x", "m0,b=y", "m0,b=z")
+	files := strings.Join(k.bed.tsiFileList(), " ")
+	k.log = append(k.log, "tsi files after write: "+files)
+	k.drop([]string{"m0"}, "a = 'x'")
+	k.log = append(k.log, "tsi files after drop: "+strings.Join(k.bed.tsiFileList(), " "))
+	k.log = append(k.log, "series file compaction")
+	if _, err := k.bed.CompactSeriesFile(); err != nil {
+		t.Fatalf("%s %v", verifkit.Sig("series-file-compaction-error"), err)
+	}
+	k.log = append(k.log, "reopen")
+	if err := k.bed.Reopen(); err != nil {
+		t.Fatalf("%s %v", verifkit.Sig("reopen-error"), err)
+	}
+	k.bed.Quiesce()
+	want := []string{"m0,a=y", "m0,a=z", "m0,b=x", "m0,b=y", "m0,b=z"}
+	set, n, err := k.bed.ShardSeries(0, 1)
+	k.expect("shard-series-set-inmem-wrong", "inmem series id set", k.must(set, err), want...)
+	if n != 5 {
+		t.Fatalf("%s inmem SeriesN = %d, want 5", verifkit.Sig("shard-seriesN-inmem"), n)
+	}
+	for i, kind := range vDualKinds {
+		k.expect("series-listing-"+kind+"-wrong", kind+" series of m0", k.must(k.bed.SeriesByExpr(i, k.bed.shardIDs(), "m0", nil)), want...)
+	}
+	set, n, err = k.bed.ShardSeries(1, 1)
+	k.must(set, err)
+	var real []string
+	phantom := 0
+	for _, s := range set {
+		if strings.HasPrefix(s, "<id ") {
+			phantom++
+		} else {
+			real = append(real, s)
+		}
+	}
+	k.expect("shard-series-set-tsi1-wrong", "tsi1 series id set (keyed entries)", real, want...)
+	rep := phantom > 0 || n != 5
+	if rep {
+		st.KnownReproduced(vC14SigPhantom, fmt.Sprintf("6 series compacted into an index file (%s), DROP SERIES FROM m0 WHERE a='x', series-file compaction, reopen: tsi1 shard series id set = %v, SeriesN = %d (want 5 series)", files, set, n))
+	}
+	st.Case(true, fmt.Sprintf("phantom/%v", rep), fmt.Sprintf("kf:phantom reproduced=%v", rep))
+	st.Sample(k.log)
+	k.bed.Close()
+}
